@@ -716,13 +716,23 @@ def check_api_frame_loop(ctx, lm):
         return [dict(fr) for fr in frames]
 
     fm = Rec(None, load_many=("<function>", fmt_load_many))
-    entered, left = [], []
+    entered, left, the_lit = [], [], []
+
+    def make_lit(a, k):
+        # the model line iterator: an object with the file name, entered / left as a context manager (entering gives
+        # the object itself, as the library's class does)
+        rec = Rec(None, filename=(a[0] if a else k.get("filename")), lineno=0)
+        rec.fields["__enter__"] = ("<function>", lambda a2, k2: (entered.append(1), rec)[1])
+        rec.fields["__exit__"] = ("<function>", lambda a2, k2: left.append(1))
+        the_lit.append(rec)
+        return rec
+
     ev = AccessorEval(prog, None, limit=4000)
     ev.module = lm.module
     ev.stubs = {
         "iodata.api._select_format_module": lambda a, k: fm,
         io.qualname: lambda a, k: Rec(None, made_from=dict(k), positional=list(a)),
-        li.qualname: lambda a, k: Rec(None, filename=(a[0] if a else k.get("filename")), **{"__enter__": ("<function>", lambda a2, k2: entered.append(1) or "LIT"), "__exit__": ("<function>", lambda a2, k2: left.append(1))}),
+        li.qualname: make_lit,
     }
     ev.collect_yields = []
     try:
@@ -737,7 +747,7 @@ def check_api_frame_loop(ctx, lm):
     if len(got) != 3 or not all(isinstance(g, Rec) and g.fields.get("made_from") == fr and not g.fields.get("positional") for g, fr in zip(got, frames)):
         titles = [g.fields.get("made_from", {}).get("title") if isinstance(g, Rec) else g for g in got]
         bad = f"three frames (f1, an empty one, f3) of the format's load_many are yielded as {titles} (each frame must become exactly one IOData(**frame), in order)"
-    elif seen.get("args") != ["LIT"] or seen.get("kw") != {"option": 7}:
+    elif len(seen.get("args", [])) != 1 or not the_lit or seen["args"][0] is not the_lit[0] or seen.get("kw") != {"option": 7}:
         bad = f"the format's load_many is called with {seen.get('args')}, {seen.get('kw')} instead of the line iterator and the caller's keyword arguments"
     elif entered != [1] or left != [1]:
         bad = f"the line iterator is entered {len(entered)} and left {len(left)} time(s) for one call"
